@@ -16,6 +16,12 @@ func refPtrTokens(p string) ([]string, bool) {
 	}
 	parts := strings.Split(p[1:], "/")
 	for i, t := range parts {
+		// RFC 6901: '~' must be followed by '0' or '1'
+		for j := 0; j < len(t); j++ {
+			if t[j] == '~' && (j+1 >= len(t) || (t[j+1] != '0' && t[j+1] != '1')) {
+				return nil, false
+			}
+		}
 		t = strings.ReplaceAll(t, "~1", "/")
 		t = strings.ReplaceAll(t, "~0", "~")
 		parts[i] = t
